@@ -1,31 +1,37 @@
 //! C12 - token-aware requests are first sent to an owning replica and shard.
 //! Engine E-MOCK: a real `Session` against `mockcluster`, one cluster per descriptor of
-//! `c12_model::enumerate` (node counts x DC splits x shard patterns x pool size x tablets), run
-//! concurrently (every cluster draws its own loopback addresses). Inside one cluster every
-//! keyspace (SimpleStrategy RF 1..3, three NetworkTopologyStrategy maps, optionally a tablet keyspace;
-//! all with a table called `t`) x every policy (default, prefer each DC with/without failover) x every
-//! cell key is executed once through a prepared statement; the oracle reads the mock's log.
+//! `c12_model::enumerate` (node counts x DC splits x shard patterns x pool size x tablets x vnodes),
+//! run concurrently (every cluster draws its own loopback addresses). Inside one cluster: a session
+//! without location preference and one per DC preferred at session level; every keyspace
+//! (SimpleStrategy RF 1..3, NetworkTopologyStrategy maps incl. an RF-0 entry, optionally a tablet
+//! keyspace; all with a table called `t`) x every policy x every statement kind (plain / LWT-marked
+//! through execute_unpaged, a SELECT through execute_single_page / execute_iter) x every cell key.
+//! Histories after the normal phase (a third of the clusters each): a node restarts with other
+//! sharding parameters; a node goes down; a node is reported in another datacenter and the
+//! metadata is refreshed. The oracle reads the mock's log.
 //!
 //! Waits are conditions: mock-side "every node has its pool connections READY", client-side
-//! "`Node::is_connected`" and, for per-shard pools, "a probe aimed at (node, shard) through
-//! `SingleTargetLoadBalancingPolicy` arrived on that shard"; for tablets "the client's locator
-//! lists the tablet's replicas" (used as a wait condition only - the verdict is the mock's log).
-use h_mock::c12_model::{self as model, Allowed, CellKey, Desc, Layout, Policy, TABLET_KS};
+//! "every one of those connections has carried a probe sent through
+//! `SingleTargetLoadBalancingPolicy`"; for tablets "the client's locator lists the delivered
+//! tablet" (a wait condition only - the verdict is the mock's log); for a killed node
+//! "`Node::is_connected()` is false".
+use h_mock::c12_model::{self as model, Allowed, CellKey, Desc, KsCfg, Layout, Policy, TABLET_KS};
 use mockcluster::wire::{ColType, Envelope, Opcode, Response, TABLETS_PAYLOAD_KEY, col, tablet_payload};
-use mockcluster::{ConnInfo, KeyspaceSpec, LogEntry, MockCluster, NodeSpec, Reply, Script, TableSpec};
+use mockcluster::{ConnInfo, KeyspaceSpec, LogEntry, MockCluster, NodeSpec, Reply, ReqCtx, Script, TableSpec};
 use scylla::client::PoolSize;
 use scylla::client::execution_profile::{ExecutionProfile, ExecutionProfileHandle};
 use scylla::client::session::Session;
 use scylla::client::session_builder::SessionBuilder;
 use scylla::policies::load_balancing::{DefaultPolicy, LoadBalancingPolicy, NodeIdentifier, SingleTargetLoadBalancingPolicy};
+use scylla::response::PagingState;
 use scylla::routing::Token;
 use scylla::statement::prepared::PreparedStatement;
 use scylla::statement::unprepared::Statement;
 use serde_json::{Value, json};
 use std::collections::{BTreeMap, BTreeSet};
 use std::num::NonZeroUsize;
-use std::sync::atomic::{AtomicBool, AtomicU64, AtomicUsize, Ordering};
 use std::sync::Arc;
+use std::sync::atomic::{AtomicBool, AtomicU64, AtomicUsize, Ordering};
 use std::time::{Duration, Instant};
 use vcore::Report;
 
@@ -33,13 +39,53 @@ const PROBE: &str = "SELECT probe FROM c12.probe";
 const DEADLINE: Duration = mockcluster::DEADLINE;
 /// Set once a delivered tablet was not learnt within the deadline: later clusters do not wait for the same thing again.
 static TABLET_NOT_LEARNT: AtomicBool = AtomicBool::new(false);
-
-/// Two statements per keyspace: a plain write and a conditional one (marked as LWT in the PREPARED flags, which
-/// sends the driver down its deterministic-replica-order path). Bind markers: (b, a); `a` is the partition key.
-fn stmt_text(ks: &str, lwt: bool) -> String {
-    if lwt { format!("UPDATE {ks}.t SET b = ? WHERE a = ? IF EXISTS") } else { format!("INSERT INTO {ks}.t (b, a) VALUES (?, ?)") }
-}
 const LWT_MASK: u32 = 0x8000_0000;
+
+/// How one logical request is issued. Bind markers are always (b, a); `a` is the partition key, `b` the request serial.
+#[derive(Clone, Copy, Debug, PartialEq, Eq, PartialOrd, Ord)]
+enum Kind {
+    /// INSERT through execute_unpaged
+    Insert,
+    /// conditional UPDATE, marked as LWT in the PREPARED flags (deterministic-replica-order path), execute_unpaged
+    Lwt,
+    /// SELECT through execute_single_page
+    Page,
+    /// SELECT through execute_iter (the pager builds its own routing information)
+    Iter,
+}
+impl Kind {
+    fn label(self) -> &'static str {
+        match self {
+            Kind::Insert => "insert",
+            Kind::Lwt => "lwt",
+            Kind::Page => "page",
+            Kind::Iter => "iter",
+        }
+    }
+    fn parse(s: &str) -> Kind {
+        match s {
+            "lwt" => Kind::Lwt,
+            "page" => Kind::Page,
+            "iter" => Kind::Iter,
+            _ => Kind::Insert,
+        }
+    }
+    /// statement slot: 0 insert, 1 lwt, 2 select
+    fn stmt(self) -> u8 {
+        match self {
+            Kind::Insert => 0,
+            Kind::Lwt => 1,
+            Kind::Page | Kind::Iter => 2,
+        }
+    }
+}
+fn stmt_text(ks: &str, stmt: u8) -> String {
+    match stmt {
+        0 => format!("INSERT INTO {ks}.t (b, a) VALUES (?, ?)"),
+        1 => format!("UPDATE {ks}.t SET b = ? WHERE a = ? IF EXISTS"),
+        _ => format!("SELECT b FROM {ks}.t WHERE b = ? AND a = ? ALLOW FILTERING"),
+    }
+}
 
 struct TabletWorld {
     generation: AtomicUsize,
@@ -49,8 +95,9 @@ struct TabletWorld {
 
 #[derive(Clone, Debug)]
 struct Only {
-    restart: usize,
-    lwt: bool,
+    /// "main", "restart1".."restart3", "down", "moved"
+    phase: String,
+    kind: Kind,
     ks: String,
     policy: Policy,
     key: i32,
@@ -77,18 +124,23 @@ fn pool_conns(cs: &[ConnInfo], node: usize) -> Vec<&ConnInfo> {
     cs.iter().filter(|c| c.node == node && c.open && c.ready && c.registered.is_empty()).collect()
 }
 
-/// Mock-side "pools are full": per node exactly the connections the pool size asks for, each READY, on distinct
-/// shards, and no connection anywhere that has not finished its handshake. Returns the pool connections.
-fn pools_full(layout: &Layout, cs: &[ConnInfo]) -> Option<Vec<ConnInfo>> {
+/// Mock-side "pools are full": per node (except the ones in `down`) exactly the connections the pool size asks for,
+/// each READY, on distinct shards, and no connection anywhere that has not finished its handshake.
+fn pools_full(layout: &Layout, cs: &[ConnInfo], down: &BTreeSet<usize>) -> Option<Vec<ConnInfo>> {
     let mut all = Vec::new();
     for (i, n) in layout.nodes.iter().enumerate() {
+        if down.contains(&i) {
+            continue;
+        }
         let pc = pool_conns(cs, i);
-        let shards: BTreeSet<Option<u16>> = pc.iter().map(|c| c.shard).collect();
-        let want = match (layout.desc.per_shard, n.shards) {
-            (true, Some((nr, _))) => nr as usize,
-            _ => 1,
+        let k = layout.desc.pool_n.max(1);
+        let ok = match (layout.desc.per_shard, n.shards) {
+            // PerShard(k): exactly k connections bound to every shard
+            (true, Some((nr, _))) => pc.len() == nr as usize * k && (0..nr).all(|s| pc.iter().filter(|c| c.shard == Some(s)).count() == k),
+            // PerHost(k), or a node that is not sharded: k connections, wherever the server put them
+            _ => pc.len() == k,
         };
-        if pc.len() != want || shards.len() != want {
+        if !ok {
             return None;
         }
         all.extend(pc.into_iter().cloned());
@@ -163,26 +215,35 @@ struct Run<'a> {
     layout: Arc<Layout>,
     cluster: MockCluster,
     session: Session,
+    prepared: BTreeMap<(String, u8), PreparedStatement>,
     pool_has: BTreeSet<(usize, Option<u16>)>,
+    /// nodes that were killed and that the client reports as not connected
+    down: BTreeSet<usize>,
     serial: i32,
     replaying: bool,
-    /// 0 = before any restart; k = after the k-th "node restarted with other sharding parameters" step
-    restart: usize,
-    restart_note: String,
+    phase: String,
+    phase_note: String,
+    outcomes: BTreeSet<(usize, Option<u16>)>,
 }
 
 impl Run<'_> {
-    fn case(&self, ks: &str, lwt: bool, policy: &Policy, key: i32, generation: usize) -> Value {
-        json!({"desc": self.desc.to_json(), "only": {"ks": ks, "lwt": lwt, "policy": policy.label(), "key": key, "generation": generation, "restart": self.restart}})
+    fn case(&self, ks: &str, kind: Kind, policy: &Policy, key: i32, generation: usize) -> Value {
+        json!({"desc": self.desc.to_json(), "only": {"phase": self.phase, "ks": ks, "stmt": kind.label(), "policy": policy.label(), "key": key, "generation": generation}})
     }
 
-    /// One logical request + oracle. Returns the (node, shard) the first EXECUTE arrived on.
-    async fn request(&mut self, ps: &PreparedStatement, ks: &model::KsCfg, lwt: bool, policy: &Policy, ck: &CellKey, generation: usize) -> Option<(usize, Option<u16>)> {
+    /// One logical request + oracle.
+    async fn request(&mut self, ps: &PreparedStatement, ks: &KsCfg, kind: Kind, policy: &Policy, ck: &CellKey, generation: usize) {
         let r = self.r;
         self.serial += 1;
         let serial = self.serial;
         let from = self.cluster.log_len();
-        let res = self.session.execute_unpaged(ps, (serial, ck.key)).await;
+        let case = self.case(&ks.name, kind, policy, ck.key, generation);
+        // the three public ways to execute a prepared statement
+        let res: Result<Option<scylla::response::query_result::QueryResult>, String> = match kind {
+            Kind::Insert | Kind::Lwt => self.session.execute_unpaged(ps, (serial, ck.key)).await.map(Some).map_err(|e| e.to_string()),
+            Kind::Page => self.session.execute_single_page(ps, (serial, ck.key), PagingState::start()).await.map(|x| Some(x.0)).map_err(|e| e.to_string()),
+            Kind::Iter => self.session.execute_iter(ps.clone(), (serial, ck.key)).await.map(|_pager| None).map_err(|e| e.to_string()),
+        };
         let serial_bytes = serial.to_be_bytes();
         let execs: Vec<Arc<LogEntry>> = self
             .cluster
@@ -191,20 +252,26 @@ impl Run<'_> {
             .filter(|e| e.opcode() == Some(Opcode::Execute) && e.frame().and_then(|f| f.request.params()).and_then(|p| p.values.first()).and_then(|v| v.as_bytes()) == Some(&serial_bytes[..]))
             .collect();
         r.eval(1);
-        let case = self.case(&ks.name, lwt, policy, ck.key, generation);
+        let allowed = if ks.tablet_based { model::allowed_tablet(&self.layout, generation, policy, ck.token, &self.down) } else { model::allowed_vnode(&self.layout, &ks.strat, policy, ck.token, &self.down) };
         let res = match res {
             Ok(x) => x,
-            Err(e) => {
-                if execs.is_empty() {
-                    machinery(&self.cluster, self.desc, &format!("request {case} failed without any EXECUTE on the wire: {e}"));
-                }
-                machinery(&self.cluster, self.desc, &format!("request {case} failed: {e}"));
+            // nothing the policy permits is reachable (e.g. the preferred datacenter's only node is down and failover is
+            // not permitted): the property says nothing, and the driver may well have nobody to send the request to
+            Err(_) if execs.is_empty() && matches!(allowed, Allowed::Unconstrained { .. }) && self.phase != "main" => {
+                r.counters.add("requests_failed_with_no_permitted_node_reachable", 1);
+                return;
             }
+            Err(e) if execs.is_empty() && !matches!(allowed, Allowed::Unconstrained { .. }) => {
+                r.violation("request:no-attempt-though-a-permitted-replica-is-reachable", &format!("{}{} ks={} stmt={} policy={} key={}: the request failed without any EXECUTE on the wire ({e}); permitted and reachable: {allowed:?}", self.desc.label(), self.phase_note, ks.name, kind.label(), policy.label(), ck.key), case);
+                return;
+            }
+            Err(e) => machinery(&self.cluster, self.desc, &format!("request {case} failed ({} EXECUTE frames on the wire): {e}", execs.len())),
         };
         let Some(first) = execs.first() else { machinery(&self.cluster, self.desc, &format!("request {case} succeeded but no EXECUTE frame carries its serial")) };
         let last = execs.last().unwrap();
-        if !first.is_stmt(&stmt_text(&ks.name, lwt)) {
-            machinery(&self.cluster, self.desc, &format!("request {case}: EXECUTE resolves to {:?}", first.statement()));
+        // (the first frame of a request answered UNPREPARED resolves to no text; the re-sent one does)
+        if !last.is_stmt(&stmt_text(&ks.name, kind.stmt())) {
+            machinery(&self.cluster, self.desc, &format!("request {case}: EXECUTE resolves to {:?}", last.statement()));
         }
         let bound_key = first.frame().and_then(|f| f.request.params()).and_then(|p| p.values.get(1)).and_then(|v| v.as_bytes().map(|b| b.to_vec()));
         if bound_key.as_deref() != Some(&ck.key.to_be_bytes()[..]) {
@@ -214,13 +281,14 @@ impl Run<'_> {
             r.counters.add("requests_with_more_than_one_execute_frame", 1);
         }
         let (node, shard) = (first.node, first.shard);
-        let here = format!("{}{} ks={}{} policy={} key={} token={}", self.desc.label(), self.restart_note, ks.name, if lwt { " (LWT)" } else { "" }, policy.label(), ck.key, ck.token);
-        if lwt {
-            r.counters.add("lwt_requests", 1);
+        self.outcomes.insert((node, shard));
+        let here = format!("{}{} ks={} stmt={} policy={} key={} token={}", self.desc.label(), self.phase_note, ks.name, kind.label(), policy.label(), ck.key, ck.token);
+        r.counters.add(&format!("requests_{}", kind.label()), 1);
+        if self.down.contains(&node) {
+            machinery(&self.cluster, self.desc, &format!("{here}: a frame arrived on killed node {node}"));
         }
 
         // ---- the oracle proper
-        let allowed = if ks.tablet_based { model::allowed_tablet(&self.layout, generation, policy, ck.token) } else { model::allowed_vnode(&self.layout, &ks.strat, policy, ck.token) };
         match &allowed {
             Allowed::Unconstrained { .. } => {
                 r.counters.add("requests_without_permitted_replica", 1);
@@ -232,10 +300,13 @@ impl Run<'_> {
                 if nodes.len() < self.layout.nodes.len() {
                     r.nontrivial(1);
                 }
+                let full = self.layout.ring.replicas_ring_order(ck.token, &ks.strat);
+                if !self.down.is_empty() && full.iter().any(|n| self.down.contains(n)) {
+                    r.counters.add("requests_with_a_replica_down_and_another_up", 1);
+                }
                 if !nodes.contains(&node) {
-                    let full = self.layout.ring.replicas_ring_order(ck.token, &ks.strat);
                     let key = if full.contains(&node) { "vnode:first-attempt-outside-preferred-dc" } else { "vnode:first-attempt-not-a-replica" };
-                    r.violation(key, &format!("{here}: first EXECUTE arrived on node {node} ({}); reference replicas permitted first: {nodes:?} (all replicas {full:?})", self.layout.node_dc(node)), case.clone());
+                    r.violation(key, &format!("{here}: first EXECUTE arrived on node {node} ({}); reference replicas permitted first: {nodes:?} (all replicas {full:?}, down {:?})", self.layout.node_dc(node), self.down), case.clone());
                 } else if let Some((nr, msb)) = self.layout.nodes[node].shards {
                     let owner = cqlref::shard::shard_of(ck.token, nr, msb) as u16;
                     if self.pool_has.contains(&(node, Some(owner))) {
@@ -262,14 +333,12 @@ impl Run<'_> {
                 if !nodes.contains(&node) {
                     let all = &self.layout.tablet_maps[generation][self.layout.tablet_of(generation, ck.token).unwrap()].replicas;
                     let key = if all.iter().any(|p| p.0 == node) { "tablet:first-attempt-outside-preferred-dc" } else { "tablet:first-attempt-not-a-tablet-replica" };
-                    r.violation(key, &format!("{here}: first EXECUTE arrived on node {node}; the tablet (map generation {generation}) lists {all:?}, permitted first: {pairs:?}"), case.clone());
+                    r.violation(key, &format!("{here}: first EXECUTE arrived on node {node}; the tablet (map generation {generation}) lists {all:?}, permitted first: {pairs:?} (down {:?})", self.down), case.clone());
                 } else {
                     let want: Vec<u16> = pairs.iter().filter(|p| p.0 == node).map(|p| p.1 as u16).collect();
                     if want.iter().any(|s| self.pool_has.contains(&(node, Some(*s)))) {
                         r.counters.add("shard_assertions", 1);
                         r.counters.add("tablet_shard_assertions", 1);
-                        // with a connection to one of the listed shards in the pool the request must use a listed shard
-                        // whose connection exists (several entries for one node do not occur in the maps used here)
                         if !want.iter().any(|s| shard == Some(*s)) {
                             r.violation("tablet:shard-not-the-tablets", &format!("{here}: first EXECUTE arrived on node {node} shard {shard:?}; the tablet lists shard(s) {want:?} on that node and the pool holds such a connection"), case.clone());
                         }
@@ -281,24 +350,118 @@ impl Run<'_> {
         }
 
         // ---- QueryResult::request_coordinator agrees with the mock (connection that served the answer)
-        let co = res.request_coordinator();
-        let conn = self.cluster.conn(last.conn);
-        let want_host = self.cluster.host_id(last.node);
-        if co.node().host_id != want_host {
-            r.violation("coordinator:node", &format!("{here}: request_coordinator() names host {} but the request was served by node {} ({want_host})", co.node().host_id, last.node), case.clone());
-        }
-        if co.shard() != last.shard.map(|s| s as u32) {
-            r.violation("coordinator:shard", &format!("{here}: request_coordinator().shard() = {:?}, the serving connection is bound to shard {:?} of node {}", co.shard(), last.shard, last.node), case.clone());
-        }
-        if let Some(c) = conn {
-            let port = if c.shard_port { self.cluster.shard_aware_port() } else { self.cluster.port() };
-            let want = std::net::SocketAddr::new(self.cluster.ip(last.node).into(), port);
-            if co.connection_address() != want {
-                r.violation("coordinator:address", &format!("{here}: request_coordinator().connection_address() = {}, the serving connection was accepted on {want}", co.connection_address()), case.clone());
+        if let Some(res) = res {
+            let co = res.request_coordinator();
+            let conn = self.cluster.conn(last.conn);
+            let want_host = self.cluster.host_id(last.node);
+            if co.node().host_id != want_host {
+                r.violation("coordinator:node", &format!("{here}: request_coordinator() names host {} but the request was served by node {} ({want_host})", co.node().host_id, last.node), case.clone());
+            }
+            if co.shard() != last.shard.map(|s| s as u32) {
+                r.violation("coordinator:shard", &format!("{here}: request_coordinator().shard() = {:?}, the serving connection is bound to shard {:?} of node {}", co.shard(), last.shard, last.node), case.clone());
+            }
+            if let Some(c) = conn {
+                let port = if c.shard_port { self.cluster.shard_aware_port() } else { self.cluster.port() };
+                let want = std::net::SocketAddr::new(self.cluster.ip(last.node).into(), port);
+                if co.connection_address() != want {
+                    r.violation("coordinator:address", &format!("{here}: request_coordinator().connection_address() = {}, the serving connection was accepted on {want}", co.connection_address()), case.clone());
+                }
             }
         }
-        Some((node, shard))
     }
+
+    /// policies x keyspaces x cell keys x statement kinds of the current phase.
+    #[allow(clippy::too_many_arguments)]
+    async fn sweep(&mut self, policies: &[Policy], ks_ok: &dyn Fn(&KsCfg, &Policy) -> bool, keys: &[CellKey], generation: usize, only: &Option<Only>, repeats: usize, evict: bool) -> u64 {
+        let layout = self.layout.clone();
+        let mut issued = 0u64;
+        for (pi, policy) in policies.iter().enumerate() {
+            if evict && pi == 1 && only.is_none() {
+                // history: every node forgets its prepared statements once; the first execution per node is answered
+                // UNPREPARED and re-sent - the first frame is still the first attempt
+                for n in 0..layout.nodes.len() {
+                    self.cluster.evict_prepared(n, None);
+                }
+                self.r.counters.add("prepared_caches_evicted", layout.nodes.len() as u64);
+            }
+            let handle = policy_handle(policy);
+            for ks in &layout.keyspaces {
+                if !ks_ok(ks, policy) {
+                    continue;
+                }
+                let stmts: Vec<PreparedStatement> = (0u8..3)
+                    .map(|s| {
+                        let mut ps = self.prepared[&(ks.name.clone(), s)].clone();
+                        ps.set_execution_profile_handle(Some(handle.clone()));
+                        ps
+                    })
+                    .collect();
+                for (ki, ck) in keys.iter().enumerate() {
+                    for kind in [Kind::Insert, Kind::Lwt, if ki % 2 == 0 { Kind::Page } else { Kind::Iter }] {
+                        if let Some(o) = only {
+                            if o.phase != self.phase || o.ks != ks.name || o.kind != kind || &o.policy != policy || o.key != ck.key || o.generation != generation {
+                                continue;
+                            }
+                        }
+                        // the paged entry points share everything below the routing information with execute_unpaged: one pass
+                        // (an LWT-marked statement takes the first replica in a deterministic order: repeating it shows nothing new)
+                        let n = if self.replaying { 16 } else if kind != Kind::Insert { 1 } else { repeats };
+                        for _ in 0..n {
+                            self.request(&stmts[kind.stmt() as usize], ks, kind, policy, ck, generation).await;
+                            issued += 1;
+                        }
+                    }
+                }
+            }
+        }
+        issued
+    }
+
+    /// Public functions of `ClusterState` that answer from the same state: `compute_token` and `get_token_endpoints`.
+    fn check_state_api(&self, keys: &[CellKey], generation: usize, tablet_table: bool) {
+        let r = self.r;
+        let state = self.session.get_cluster_state();
+        for ks in self.layout.keyspaces.iter().filter(|k| k.tablet_based == tablet_table) {
+            for ck in keys {
+                r.counters.add("state_api_checks", 1);
+                let case = json!({"desc": self.desc.to_json(), "only": {"phase": "main", "ks": ks.name, "stmt": "insert", "policy": "default", "key": ck.key, "generation": generation}});
+                match state.compute_token(&ks.name, "t", &(ck.key,)) {
+                    Ok(t) if t.value() == ck.token => {}
+                    other => r.violation("api:compute-token", &format!("{}: ClusterState::compute_token({}.t, key {}) = {:?}, the partitioner gives {}", self.desc.label(), ks.name, ck.key, other.map(|t| t.value()).map_err(|e| e.to_string()), ck.token), case.clone()),
+                }
+                let got: BTreeSet<(uuid::Uuid, u32)> = state.get_token_endpoints(&ks.name, "t", Token::new(ck.token)).into_iter().map(|(n, s)| (n.host_id, s)).collect();
+                let want: BTreeSet<(uuid::Uuid, u32)> = if ks.tablet_based {
+                    match self.layout.tablet_of(generation, ck.token) {
+                        Some(t) => self.layout.tablet_maps[generation][t].replicas.iter().map(|(n, s)| (self.cluster.host_id(*n), *s as u32)).collect(),
+                        None => BTreeSet::new(),
+                    }
+                } else {
+                    self.layout.ring.replicas_ring_order(ck.token, &ks.strat).into_iter().map(|n| (self.cluster.host_id(n), self.layout.nodes[n].shards.map(|(nr, msb)| cqlref::shard::shard_of(ck.token, nr, msb)).unwrap_or(0))).collect()
+                };
+                if got != want {
+                    r.violation("api:token-endpoints", &format!("{}: ClusterState::get_token_endpoints({}.t, token {}) = {got:?}, reference replicas with owning shards: {want:?}", self.desc.label(), ks.name, ck.token), case);
+                }
+            }
+        }
+    }
+}
+
+/// What ScyllaDB does for a tablet table: a request that reached a node/shard that is not a replica of the tablet
+/// covering the key gets the tablet back in the custom payload of the (otherwise unchanged) answer.
+fn tablet_reply(ctx: &ReqCtx, layout: &Layout, world: &TabletWorld, answer: Response) -> Reply {
+    let key = ctx.params().and_then(|p| p.values.get(1)).and_then(|v| v.as_bytes()).and_then(|b| <[u8; 4]>::try_from(b).ok());
+    let Some(key) = key else { return Reply::response(answer) };
+    let token = cqlref::murmur3::murmur3_token(&key);
+    let generation = world.generation.load(Ordering::SeqCst);
+    let Some(t) = layout.tablet_of(generation, token) else { return Reply::response(answer) };
+    let tab = &layout.tablet_maps[generation][t];
+    let here = (ctx.node, ctx.shard.map(|s| s as i32).unwrap_or(0));
+    if tab.replicas.contains(&here) && !world.always_send.load(Ordering::SeqCst) {
+        return Reply::response(answer);
+    }
+    world.payloads_sent.fetch_add(1, Ordering::SeqCst);
+    let reps: Vec<(uuid::Uuid, i32)> = tab.replicas.iter().map(|(n, s)| (ctx.cluster.host_id(*n), *s)).collect();
+    Reply::Frame(Envelope::from(answer).with_payload(TABLETS_PAYLOAD_KEY, tablet_payload(tab.first_exclusive, tab.last, &reps)))
 }
 
 async fn run_cluster(r: &Report, desc: &Desc, only: Option<Only>) {
@@ -347,30 +510,29 @@ async fn run_cluster(r: &Report, desc: &Desc, only: Option<Only>) {
         let spec = if ks.tablet_based { spec.tablets(desc.tablets as i32) } else { spec };
         b = b.keyspace(spec.table(table));
     }
+    // never executed: a keyspace whose table `t` uses another partitioner - a lookup by table name alone would hand
+    // its partitioner (or, for tablets, its map) to the tables called `t` of the other keyspaces
+    {
+        let mut t = TableSpec::new("t").pk("a", "int").col("b", "int");
+        t.partitioner = Some("com.scylladb.dht.CDCPartitioner".into());
+        b = b.keyspace(KeyspaceSpec::simple("cdc", 1).table(t));
+    }
     let cluster = b.build().await.unwrap_or_else(|e| vcore::machinery_error(&e));
     let world = Arc::new(TabletWorld { generation: AtomicUsize::new(0), always_send: AtomicBool::new(false), payloads_sent: AtomicU64::new(0) });
     for ks in &layout.keyspaces {
-        for lwt in [false, true] {
+        for stmt in 0u8..3 {
             let cols = vec![col(&ks.name, "t", "b", ColType::Int), col(&ks.name, "t", "a", ColType::Int)];
-            let mut s = Script::new(&stmt_text(&ks.name, lwt)).bind(cols, vec![1]);
-            s.lwt = lwt;
+            let result_cols = vec![cols[0].clone()];
+            let mut s = Script::new(&stmt_text(&ks.name, stmt)).bind(cols, vec![1]);
+            s.lwt = stmt == 1;
+            if stmt == 2 {
+                s = s.rows(result_cols.clone(), Vec::new());
+            }
             if ks.tablet_based {
                 let (layout, world) = (layout.clone(), world.clone());
                 s = s.reply(move |ctx| {
-                    // what ScyllaDB does: a request that reached a node/shard that is not a replica of the tablet gets the tablet back
-                    let key = ctx.params().and_then(|p| p.values.get(1)).and_then(|v| v.as_bytes()).and_then(|b| <[u8; 4]>::try_from(b).ok());
-                    let Some(key) = key else { return Reply::void() };
-                    let token = cqlref::murmur3::murmur3_token(&key);
-                    let generation = world.generation.load(Ordering::SeqCst);
-                    let Some(t) = layout.tablet_of(generation, token) else { return Reply::void() };
-                    let tab = &layout.tablet_maps[generation][t];
-                    let here = (ctx.node, ctx.shard.map(|s| s as i32).unwrap_or(0));
-                    if tab.replicas.contains(&here) && !world.always_send.load(Ordering::SeqCst) {
-                        return Reply::void();
-                    }
-                    world.payloads_sent.fetch_add(1, Ordering::SeqCst);
-                    let reps: Vec<(uuid::Uuid, i32)> = tab.replicas.iter().map(|(n, s)| (ctx.cluster.host_id(*n), *s)).collect();
-                    Reply::Frame(Envelope::from(Response::Void).with_payload(TABLETS_PAYLOAD_KEY, tablet_payload(tab.first_exclusive, tab.last, &reps)))
+                    let answer = if stmt == 2 { Response::rows(result_cols.clone(), Vec::new()) } else { Response::Void };
+                    tablet_reply(ctx, &layout, &world, answer)
                 });
             }
             cluster.script(s);
@@ -380,7 +542,10 @@ async fn run_cluster(r: &Report, desc: &Desc, only: Option<Only>) {
 
     // ---- one session without a location preference, then one per datacenter preferred at session level
     let mut cfgs: Vec<Option<String>> = vec![None];
-    cfgs.extend(layout.dcs.iter().cloned().map(Some));
+    // quick tier (one key per cell): the session-level sessions run in the clusters with 2 vnodes and in all clusters of <= 2 nodes
+    if desc.keys_per_cell > 1 || desc.vnodes == 2 || layout.nodes.len() <= 2 || only.is_some() {
+        cfgs.extend(layout.dcs.iter().cloned().map(Some));
+    }
     let mut outcomes: BTreeSet<(usize, Option<u16>)> = BTreeSet::new();
     for session_pref in cfgs {
         if let Some(o) = &only {
@@ -407,24 +572,28 @@ async fn run_cluster(r: &Report, desc: &Desc, only: Option<Only>) {
     cluster.shutdown().await;
 }
 
-/// One session against the cluster: wait for full pools, prepare, (learn tablets,) run every request. False = stop
-/// working on this cluster (a violation that makes the rest meaningless was recorded).
+fn open_ids(cluster: &MockCluster) -> BTreeSet<u64> {
+    cluster.open_conns(None).iter().map(|c| c.id).collect()
+}
+
+/// One session against the cluster: wait for full pools, prepare, (learn tablets,) run every request, then the
+/// history phases. False = stop working on this cluster (a violation that makes the rest meaningless was recorded).
 #[allow(clippy::too_many_arguments)]
 async fn run_session(r: &Report, desc: &Desc, layout: &Arc<Layout>, cluster: &MockCluster, world: &Arc<TabletWorld>, keys: &[CellKey], session_pref: Option<String>, only: &Option<Only>, outcomes: &mut BTreeSet<(usize, Option<u16>)>) -> bool {
     let cluster = cluster.clone();
-    let one = NonZeroUsize::new(1).unwrap();
-    let mut sb = SessionBuilder::new().known_node(cluster.contact_point(0)).pool_size(if desc.per_shard { PoolSize::PerShard(one) } else { PoolSize::PerHost(one) });
+    let nobody: BTreeSet<usize> = BTreeSet::new();
+    let k = NonZeroUsize::new(desc.pool_n.max(1)).unwrap();
+    let mut sb = SessionBuilder::new().known_node(cluster.contact_point(0)).pool_size(if desc.per_shard { PoolSize::PerShard(k) } else { PoolSize::PerHost(k) });
     if let Some(dc) = &session_pref {
         sb = sb.prefer_datacenter(dc.clone());
     }
     let session = sb.build().await.unwrap_or_else(|e| machinery(&cluster, desc, &format!("session did not come up: {e}")));
     r.counters.add("sessions", 1);
-    // ---- pools full: mock side (every pool connection READY), then client side: every one of those connections
-    // has carried a probe, i.e. the client has put it into its pool (however it filed it)
-    let pool = cluster.wait_conns("every pool has its connections READY", DEADLINE, |cs| pools_full(layout, cs)).await.unwrap_or_else(|e| machinery(&cluster, desc, &e));
+    // ---- pools full: mock side (every pool connection READY), then client side (probes)
+    let pool = cluster.wait_conns("every pool has its connections READY", DEADLINE, |cs| pools_full(layout, cs, &nobody)).await.unwrap_or_else(|e| machinery(&cluster, desc, &e));
     let pool_has: BTreeSet<(usize, Option<u16>)> = pool.iter().map(|c| (c.node, c.shard)).collect();
     confirm_pools(r, desc, layout, &cluster, &session, &pool).await;
-    let conns_at_start: BTreeSet<u64> = cluster.open_conns(None).iter().map(|c| c.id).collect();
+    let conns_at_start = open_ids(&cluster);
     // the driver's view of the metadata the mock served (guards against a harness that misdrives the session)
     {
         let st = session.get_cluster_state();
@@ -440,24 +609,24 @@ async fn run_session(r: &Report, desc: &Desc, layout: &Arc<Layout>, cluster: &Mo
     }
 
     // ---- prepared statements
-    let mut prepared: BTreeMap<(String, bool), PreparedStatement> = BTreeMap::new();
+    let mut prepared: BTreeMap<(String, u8), PreparedStatement> = BTreeMap::new();
     for ks in &layout.keyspaces {
-        for lwt in [false, true] {
-            let ps = session.prepare(stmt_text(&ks.name, lwt)).await.unwrap_or_else(|e| machinery(&cluster, desc, &format!("prepare for {}: {e}", ks.name)));
+        for stmt in 0u8..3 {
+            let ps = session.prepare(stmt_text(&ks.name, stmt)).await.unwrap_or_else(|e| machinery(&cluster, desc, &format!("prepare for {}: {e}", ks.name)));
             if ps.get_variable_pk_indexes().len() != 1 {
                 machinery(&cluster, desc, "partition key index did not arrive");
             }
             // the mark only exists on ScyllaDB nodes; the PREPARED answer the driver keeps is the first one it got
             let all_scylla = layout.nodes.iter().all(|n| n.shards.is_some());
-            if all_scylla && ps.is_confirmed_lwt() != lwt {
+            if all_scylla && ps.is_confirmed_lwt() != (stmt == 1) {
                 machinery(&cluster, desc, "LWT mark did not arrive as scripted");
             }
-            prepared.insert((ks.name.clone(), lwt), ps);
+            prepared.insert((ks.name.clone(), stmt), ps);
         }
     }
 
     let replaying = only.is_some();
-    let mut run = Run { r, desc, layout: layout.clone(), cluster: cluster.clone(), session, pool_has, serial: 0, replaying, restart: 0, restart_note: String::new() };
+    let mut run = Run { r, desc, layout: layout.clone(), cluster: cluster.clone(), session, prepared, pool_has, down: BTreeSet::new(), serial: 0, replaying, phase: "main".into(), phase_note: String::new(), outcomes: BTreeSet::new() };
     let policies = match &session_pref {
         None => model::policies(layout),
         Some(dc) => model::session_policies(dc),
@@ -465,6 +634,9 @@ async fn run_session(r: &Report, desc: &Desc, layout: &Arc<Layout>, cluster: &Mo
     // session-level preference: one pass per request (the same code below the preference lookup was repeated above)
     let base_repeats = if session_pref.is_some() { 1 } else { desc.repeats.max(1) };
     let generations: usize = layout.tablet_maps.len().max(1);
+    if only.is_none() {
+        run.check_state_api(keys, 0, false);
+    }
 
     for generation in 0..generations {
         if let Some(o) = only {
@@ -475,7 +647,7 @@ async fn run_session(r: &Report, desc: &Desc, layout: &Arc<Layout>, cluster: &Mo
         // ---- tablets: deliver the map of this generation through payloads, wait until the client lists it
         if desc.tablets > 0 {
             let tks = layout.keyspaces.iter().find(|k| k.tablet_based).unwrap().clone();
-            let mut ps = prepared[&(TABLET_KS.to_string(), false)].clone();
+            let mut ps = run.prepared[&(TABLET_KS.to_string(), 0)].clone();
             ps.set_execution_profile_handle(Some(policy_handle(&Policy::Default)));
             if generation == 0 {
                 // not known yet: the client must list nothing for any token of the tablet table
@@ -513,8 +685,7 @@ async fn run_session(r: &Report, desc: &Desc, layout: &Arc<Layout>, cluster: &Mo
                 // token of the lower tablet must have changed as well before the requests start.
                 let mut also: Option<i64> = None;
                 if generation >= 2 && t == 0 {
-                    let upper_old = &layout.tablet_maps[generation - 1][1].replicas;
-                    let mut a = upper_old.clone();
+                    let mut a = layout.tablet_maps[generation - 1][1].replicas.clone();
                     let mut b = tab.replicas.clone();
                     a.sort();
                     b.sort();
@@ -528,7 +699,7 @@ async fn run_session(r: &Report, desc: &Desc, layout: &Arc<Layout>, cluster: &Mo
                     r.violation(
                         "tablet:payload-not-learnt",
                         &format!("{}: tablet {t} of generation {generation} ({:?}) was delivered in a custom payload but the client's locator lists {:?} for token {token} ({e})", desc.label(), tab.replicas, client_tablet_view(s2, token)),
-                        run.case(&tks.name, false, &Policy::Default, ck.key, generation),
+                        run.case(&tks.name, Kind::Insert, &Policy::Default, ck.key, generation),
                     );
                     return false;
                 }
@@ -538,58 +709,39 @@ async fn run_session(r: &Report, desc: &Desc, layout: &Arc<Layout>, cluster: &Mo
                 }
             }
             world.always_send.store(false, Ordering::SeqCst);
+            if only.is_none() {
+                run.check_state_api(keys, generation, true);
+            }
         }
 
         // ---- all keyspaces x policies x cell keys
         let payloads_before = world.payloads_sent.load(Ordering::SeqCst);
-        for policy in &policies {
-            let handle = policy_handle(policy);
-            for ks in &layout.keyspaces {
-                if generation > 0 && !ks.tablet_based && only.is_none() && (policy != &Policy::Default || generation > 1) {
-                    continue; // later tablet generations: vnode keyspaces are re-checked once, under the default policy
-                }
-                for lwt in [false, true] {
-                    let mut ps = prepared[&(ks.name.clone(), lwt)].clone();
-                    ps.set_execution_profile_handle(Some(handle.clone()));
-                    for ck in keys.iter() {
-                        if let Some(o) = only {
-                            if o.restart != 0 || o.ks != ks.name || o.lwt != lwt || &o.policy != policy || o.key != ck.key || o.generation != generation {
-                                continue;
-                            }
-                        }
-                        let repeats = if run.replaying { 16 } else { base_repeats };
-                        for _ in 0..repeats {
-                            if let Some(x) = run.request(&ps, ks, lwt, policy, ck, generation).await {
-                                outcomes.insert(x);
-                            }
-                        }
-                    }
-                }
-            }
-        }
+        // later tablet generations: vnode keyspaces are re-checked once (generation 1), under the default policy
+        let ks_ok = move |ks: &KsCfg, policy: &Policy| generation == 0 || ks.tablet_based || (generation == 1 && policy == &Policy::Default);
+        let _ = run.sweep(&policies, &ks_ok, keys, generation, only, base_repeats, generation == 0 && session_pref.is_none()).await;
         r.counters.add("tablet_payloads_after_learning", world.payloads_sent.load(Ordering::SeqCst) - payloads_before);
     }
 
     // ---- nothing moved under the oracle's feet
-    let conns_at_end: BTreeSet<u64> = cluster.open_conns(None).iter().map(|c| c.id).collect();
-    if conns_at_start != conns_at_end {
+    if conns_at_start != open_ids(&cluster) {
         machinery(&cluster, desc, "the set of open connections changed while the requests ran");
     }
+    let last_generation = generations - 1;
+    let wants_phase = |p: &str| only.as_ref().map(|o| o.phase.starts_with(p)).unwrap_or(true);
 
-    // ---- a node "restarts" with other sharding parameters: same shard count but another msb_ignore, then another shard
-    // count, then not sharded at all. All its pool connections are reset, the pool refills against the new SUPPORTED.
+    // ---- history 1: a node "restarts" with other sharding parameters: same shard count but another msb_ignore, then
+    // another shard count, then not sharded at all. All its pool connections are reset, the pool refills.
     let victim = layout.nodes.iter().rposition(|n| n.shards.is_some());
-    if let (true, None, Some(v)) = (desc.restart, &session_pref, victim) {
+    if let (true, None, Some(v), true) = (desc.restart, &session_pref, victim, wants_phase("restart")) {
         let mut cur: Layout = (**layout).clone();
         let (nr0, msb0) = cur.nodes[v].shards.unwrap();
         let msb1 = if msb0 == 0 { 12 } else { 0 };
         let nr2 = if nr0 >= 3 { nr0 - 1 } else { nr0 + 1 };
         let steps: Vec<Option<(u16, u8)>> = vec![Some((nr0, msb1)), Some((nr2, msb1)), None];
-        let last_generation = generations - 1;
         for (k, new_shards) in steps.into_iter().enumerate() {
             let step = k + 1;
             if let Some(o) = only {
-                if o.restart < step {
+                if o.phase.as_str() < format!("restart{step}").as_str() {
                     break;
                 }
             }
@@ -601,13 +753,13 @@ async fn run_session(r: &Report, desc: &Desc, layout: &Arc<Layout>, cluster: &Mo
                 cluster.close_conn(*id, mockcluster::CloseKind::Rst).await;
             }
             let cur_ref = &cur;
-            let pool = cluster.wait_conns("pools full again after the restart", DEADLINE, |cs| pools_full(cur_ref, cs)).await.unwrap_or_else(|e| machinery(&cluster, desc, &e));
+            let pool = cluster.wait_conns("pools full again after the restart", DEADLINE, |cs| pools_full(cur_ref, cs, &nobody)).await.unwrap_or_else(|e| machinery(&cluster, desc, &e));
             if pool.iter().any(|c| victims.contains(&c.id)) {
                 machinery(&cluster, desc, "a reset connection is still listed as open");
             }
             confirm_pools(r, desc, &cur, &cluster, &run.session, &pool).await;
             r.counters.add("restarts", 1);
-            let conns_before: BTreeSet<u64> = cluster.open_conns(None).iter().map(|c| c.id).collect();
+            let conns_before = open_ids(&cluster);
             let (keys2, stats2) = model::find_cell_keys(&cur, desc.keys_per_cell, 1_000_000);
             if stats2.cells_hit != stats2.cells_total {
                 r.counters.add("clusters_with_unhit_cells", 1);
@@ -616,43 +768,89 @@ async fn run_session(r: &Report, desc: &Desc, layout: &Arc<Layout>, cluster: &Mo
             r.counters.add("cells_hit_after_restarts", stats2.cells_hit as u64);
             run.layout = Arc::new(cur.clone());
             run.pool_has = pool.iter().map(|c| (c.node, c.shard)).collect();
-            run.restart = step;
-            run.restart_note = format!(" [after restart {step}: node {v} now {}]", new_shards.map(|(n, m)| format!("{n}/{m}")).unwrap_or_else(|| "unsharded".into()));
+            run.phase = format!("restart{step}");
+            run.phase_note = format!(" [after restart {step}: node {v} now {}]", new_shards.map(|(n, m)| format!("{n}/{m}")).unwrap_or_else(|| "unsharded".into()));
             let same_count = new_shards.map(|x| x.0) == Some(nr0);
-            for policy in [Policy::Default, Policy::PreferDc { dc: cur.nodes[v].dc.clone(), failover: true }] {
-                let handle = policy_handle(&policy);
-                for ks in &cur.keyspaces {
-                    if ks.tablet_based && !same_count {
-                        continue; // the tablet map names shards of the old shard count
-                    }
-                    for lwt in [false, true] {
-                        let mut ps = prepared[&(ks.name.clone(), lwt)].clone();
-                        ps.set_execution_profile_handle(Some(handle.clone()));
-                        for ck in keys2.iter() {
-                            if let Some(o) = only {
-                                if o.restart != step || o.ks != ks.name || o.lwt != lwt || o.policy != policy || o.key != ck.key {
-                                    continue;
-                                }
-                            }
-                            let repeats = if run.replaying { 16 } else { base_repeats };
-                            for _ in 0..repeats {
-                                r.counters.add("requests_after_a_restart", 1);
-                                if let Some(x) = run.request(&ps, ks, lwt, &policy, ck, last_generation).await {
-                                    outcomes.insert(x);
-                                }
-                            }
-                        }
-                    }
-                }
-            }
-            let conns_after: BTreeSet<u64> = cluster.open_conns(None).iter().map(|c| c.id).collect();
-            if conns_before != conns_after {
+            let pols = [Policy::Default, Policy::PreferDc { dc: cur.nodes[v].dc.clone(), failover: true }];
+            // the tablet map names shards of the old shard count
+            let ks_ok = move |ks: &KsCfg, _: &Policy| !ks.tablet_based || same_count;
+            let n = run.sweep(&pols, &ks_ok, &keys2, last_generation, only, base_repeats, false).await;
+            r.counters.add("requests_after_a_restart", n);
+            if conns_before != open_ids(&cluster) {
                 machinery(&cluster, desc, "the set of open connections changed while the requests after a restart ran");
             }
         }
         // put the mock back for the sessions that follow
         cluster.set_sharding(v, Some((nr0, msb0)));
     }
+
+    // ---- history 2: the last node goes down (listener stopped, every connection reset). Once the client reports it
+    // as not connected, the first attempt must go to a replica that is still up.
+    if let (true, None, true, true) = (desc.down, &session_pref, layout.nodes.len() >= 2, wants_phase("down")) {
+        let v = layout.nodes.len() - 1;
+        let host = cluster.host_id(v);
+        cluster.kill_node(v).await;
+        let s2 = &run.session;
+        poll_until("client reports the killed node as not connected", || s2.get_cluster_state().get_nodes_info().iter().find(|n| n.host_id == host).map(|n| !n.is_connected()).unwrap_or(false)).await.unwrap_or_else(|e| machinery(&cluster, desc, &e));
+        r.counters.add("nodes_killed", 1);
+        run.down.insert(v);
+        run.pool_has.retain(|(n, _)| *n != v);
+        run.phase = "down".into();
+        run.phase_note = format!(" [node {v} is down]");
+        let conns_before = open_ids(&cluster);
+        let ks_ok = |_: &KsCfg, _: &Policy| true;
+        // the plain statements twice: the random pick among the replicas has to hit the dead one now and then
+        let n = run.sweep(&policies, &ks_ok, keys, last_generation, only, base_repeats.max(2), false).await;
+        r.counters.add("requests_with_a_node_down", n);
+        if conns_before != open_ids(&cluster) {
+            machinery(&cluster, desc, "the set of open connections changed while the requests with a node down ran");
+        }
+        run.down.clear();
+        cluster.start_listening(v).await.unwrap_or_else(|e| machinery(&cluster, desc, &e));
+    }
+
+    // ---- history 3: the last node is reported in another datacenter; after refresh_metadata() the driver has re-created
+    // the node (new pool). Placement, preferred-DC narrowing and the tablets' per-DC views must follow.
+    if let (true, None, true, true) = (desc.moved, &session_pref, layout.nodes.len() >= 2, wants_phase("moved")) {
+        let v = layout.nodes.len() - 1;
+        let mut cur: Layout = (**layout).clone();
+        let old_dc = cur.nodes[v].dc.clone();
+        let new_dc: String = if old_dc == "dc1" { "dc2".into() } else { "dc1".into() };
+        let old_ids: BTreeSet<u64> = cluster.open_conns(Some(v)).iter().filter(|c| c.registered.is_empty()).map(|c| c.id).collect();
+        cluster.set_location(v, &new_dc, &cur.nodes[v].rack);
+        cur.nodes[v].dc = new_dc.clone();
+        cur.ring.nodes[v].dc = Some(new_dc.clone());
+        if !cur.dcs.contains(&new_dc) {
+            cur.dcs.push(new_dc.clone());
+        }
+        run.session.refresh_metadata().await.unwrap_or_else(|e| machinery(&cluster, desc, &format!("refresh_metadata: {e}")));
+        let seen_dc = run.session.get_cluster_state().get_nodes_info().iter().find(|n| n.host_id == cluster.host_id(v)).and_then(|n| n.datacenter.clone());
+        if seen_dc.as_deref() != Some(new_dc.as_str()) {
+            machinery(&cluster, desc, &format!("after the refresh the driver reports node {v} in {seen_dc:?}"));
+        }
+        let cur_ref = &cur;
+        let pool = cluster
+            .wait_conns("pools full after the node was re-created", DEADLINE, |cs| pools_full(cur_ref, cs, &nobody).filter(|p| !p.iter().any(|c| old_ids.contains(&c.id))))
+            .await
+            .unwrap_or_else(|e| machinery(&cluster, desc, &e));
+        confirm_pools(r, desc, &cur, &cluster, &run.session, &pool).await;
+        r.counters.add("nodes_moved_to_another_dc", 1);
+        run.layout = Arc::new(cur.clone());
+        run.pool_has = pool.iter().map(|c| (c.node, c.shard)).collect();
+        run.phase = "moved".into();
+        run.phase_note = format!(" [node {v} moved {old_dc} -> {new_dc}, metadata refreshed]");
+        let conns_before = open_ids(&cluster);
+        let pols = model::policies(&cur);
+        let ks_ok = |_: &KsCfg, _: &Policy| true;
+        let n = run.sweep(&pols, &ks_ok, keys, last_generation, only, 1, false).await;
+        r.counters.add("requests_after_a_dc_move", n);
+        if conns_before != open_ids(&cluster) {
+            machinery(&cluster, desc, "the set of open connections changed while the requests after the move ran");
+        }
+        cluster.set_location(v, &old_dc, &cur.nodes[v].rack);
+    }
+
+    outcomes.extend(run.outcomes.iter().copied());
     // close this session's connections before the next session counts its own
     drop(run);
     cluster.wait_conns("previous session's connections closed", DEADLINE, |cs| cs.iter().all(|c| !c.open).then_some(())).await.unwrap_or_else(|e| machinery(&cluster, desc, &e));
@@ -681,8 +879,8 @@ fn main() {
         let desc = Desc::from_json(&case["desc"]).unwrap_or_else(|| vcore::machinery_error("replay: bad desc"));
         let o = &case["only"];
         let only = Only {
-            restart: o["restart"].as_u64().unwrap_or(0) as usize,
-            lwt: o["lwt"].as_bool().unwrap_or(false),
+            phase: o["phase"].as_str().unwrap_or("main").to_string(),
+            kind: Kind::parse(o["stmt"].as_str().unwrap_or("insert")),
             ks: o["ks"].as_str().unwrap_or("s1").to_string(),
             policy: Policy::parse(o["policy"].as_str().unwrap_or("default")).unwrap_or(Policy::Default),
             key: o["key"].as_i64().unwrap_or(0) as i32,
@@ -708,10 +906,11 @@ fn main() {
     vcore::par::for_each(jobs, 1, descs.into_iter(), |d| block_on_cluster(r_ref, &d, None));
 
     r.note("clusters_enumerated", json!(total));
-    r.set_rule("E-MOCK. Clusters: node counts 1..4 (thorough ..6) x DC splits {one DC, every two-DC split with the larger half first} x shard patterns {unsharded, 1, 2, 3 shards, two mixes giving every node another sharder incl. msb_ignore 0 (thorough: 8 shards and three more mixes)} x pool {PerShard(1), PerHost(1)} x tablets {off, on (all-sharded clusters)} x vnodes per node {1,2,3} (thorough ..4), tokens jittered around an equal division, owners shuffled; plus NAT clusters (3 shards, thorough also 8) where the server binds a shard-aware-port connection to another shard than the one asked for. In the clusters with 2 vnodes per node, after the normal phase, the last sharded node restarts three times with other sharding parameters (same shard count but another msb_ignore; another shard count; not sharded): its SUPPORTED changes, all its pool connections are reset, the pool refills, and the cell keys recomputed for the new parameters are re-run under two policies. Inside every cluster: a session without location preference and one session per DC preferred at session level; keyspaces Simple RF 1,2,3, NTS {dc1:1,dc2:1}, {dc1:2,dc2:1}, {dc2:2} (+ tablet keyspace), all with a table `t`, x statements {plain, LWT-marked} x policies {default, prefer each DC with / without failover, prefer dc1/r2 with / without failover | session-level preference with / without failover} x one key (thorough two) per cell x 2 repeats, cell = (segment of the token space: ring interval / wrap halves / tablet boundary refinement) x sharder configuration x owning shard; cell emptiness and size computed from the reference shard function, every cell of >= 2^50 tokens must be hit; keys found by walking 0,1,2,.. with the reference Murmur3. Per request: node and server-side shard of the connection of the first EXECUTE carrying the request's serial vs. the reference replica list (narrowed to the preferred DC when it holds a replica; all nodes are up), shard_of(token) of that node when the pool holds a connection bound to it, the tablet's (node, shard) for the tablet table after the payload was delivered and the client lists it (three map generations: initial, every tablet migrated, the first two tablets merged into one), request_coordinator() (host id, shard, address) vs. the connection that served the answer. distinct_nontrivial = requests whose permitted first targets are a strict subset of the nodes.");
+    r.set_rule("E-MOCK. Clusters: node counts 1..4 (thorough ..6) x DC splits {one DC, every two-DC split with the larger half first, three DCs [1,1,1] and [2,1,1] (thorough three more)} x shard patterns {unsharded, 1, 2, 3 shards, two mixes giving every node another sharder incl. msb_ignore 0, unsharded contact point among sharded nodes (thorough: 8 shards and three more mixes)} x pool {PerShard(1), PerHost(1); a few clusters with PerShard(2) and PerHost(3)} x tablets {off, on (all-sharded clusters)} x vnodes per node {1,2,3} (thorough ..4), tokens jittered around an equal division, owners shuffled; plus NAT clusters (3 shards, thorough also 8) where the server binds a shard-aware-port connection to another shard than the one asked for. Inside every cluster: a session without location preference and one session per DC preferred at session level (quick: in the clusters with 2 vnodes or <= 2 nodes); keyspaces Simple RF 1,2,3, NTS {dc1:1,dc2:1}, {dc1:2,dc2:1,dc3:1}, {dc2:2}, {dc1:0,dc2:1} (+ tablet keyspace), all with a table `t`, x statement kinds {plain and LWT-marked through execute_unpaged, a SELECT through execute_single_page or execute_iter (alternating by key)} x policies {default, prefer each DC with / without failover, prefer dc1/r2 with / without failover | session-level preference with / without failover} x one key (thorough two) per cell x 2 repeats, cell = (segment of the token space: ring interval / wrap halves / tablet boundary refinement) x sharder configuration x owning shard; cell emptiness and size computed from the reference shard function, every cell of >= 2^50 tokens must be hit; keys found by walking 0,1,2,.. with the reference Murmur3; once per session every node forgets its prepared statements (UNPREPARED + re-send). Histories after the normal phase of the preference-less session, by vnode count: (2 vnodes) the last sharded node restarts three times with other sharding parameters (same shard count but another msb_ignore; another shard count; not sharded), its pool connections are reset and refilled, cell keys recomputed; (1 vnode, >= 2 nodes) the last node is killed and, once the client reports it not connected, every request is re-run with `reachable` = the other nodes; (3 vnodes, >= 2 nodes) the last node is reported in another datacenter, refresh_metadata(), pools re-confirmed, every request re-run against the new placement. Per request: node and server-side shard of the connection of the first EXECUTE carrying the request's serial vs. the reference replica list (minus down nodes, narrowed to the preferred DC when it holds a reachable replica), shard_of(token) of that node when the pool holds a connection bound to it, the tablet's (node, shard) for the tablet table after the payload was delivered and the client lists it (three map generations: initial, every tablet migrated, the first two tablets merged into one), request_coordinator() (host id, shard, address) vs. the connection that served the answer; per session and key ClusterState::compute_token and get_token_endpoints vs. the reference. distinct_nontrivial = requests whose permitted first targets are a strict subset of the nodes.");
     let full = r.counters.get("cells_hit") == r.counters.get("cells_total") && r.counters.get("clusters") == total as u64;
     r.set_exhaustive(full);
-    r.assume("all nodes up and connected for the whole run (checked: the set of open connections is the same before and after); client-internal scheduling and the thread RNG that picks among replicas are not controlled: the oracle is membership in the reference set, valid for every pick");
+    r.assume("outside the down phase all nodes are up and connected (checked: the set of open connections is the same before and after every phase); client-internal scheduling and the thread RNG that picks among replicas are not controlled: the oracle is membership in the reference set, valid for every pick");
+    r.assume("an attempt aimed at a node without any connection produces no frame: with a node down the oracle sees the first attempt that reached the wire");
     r.assume("token boundaries themselves (token == ring token) are not reachable by key search; C04 covers them at the locator");
     r.assume("LWT-marked statements are held to the same membership oracle (the property does not single them out); rack preference is held to the datacenter rule only");
     r.sample(json!({"example_cluster": model::enumerate(false).get(200).map(|d| d.to_json())}));
